@@ -23,6 +23,7 @@ type World struct {
 	allPkgs map[string]*types.Package
 	wsMemo  map[*ssa.Function]*WriteSet
 	wsBusy  map[*ssa.Function]bool
+	ptrFields map[string][]string // pointee type name -> heap variables of *T-typed struct fields
 }
 
 type WriteSet struct {
@@ -69,6 +70,8 @@ func (w *WriteSet) merge(o *WriteSet) {
 		}
 	}
 }
+
+var axiomSymRe = regexp.MustCompile(`U\.[A-Za-z0-9_]+`)
 
 var pathRe = regexp.MustCompile(`[A-Za-z0-9_\-.~]+/`)
 
@@ -304,7 +307,8 @@ func (g *Gen) assumeAxioms(env *Env) {
 			// axioms may mention symbols irrelevant to this package; skip silently only if unknown identifier
 			continue
 		}
-		g.vc.Def(t)
+		// an axiom is only relevant to queries that mention one of its uninterpreted symbols
+		g.vc.axioms = append(g.vc.axioms, axiomDef{text: t, syms: axiomSymRe.FindAllString(t, -1)})
 	}
 }
 
